@@ -52,8 +52,8 @@ def dicom_bytes_of(spec, be=False):
     from nibabel.nifti1 import Nifti1DicomExtension, Nifti1Header
     ds = dicom_obj(spec)
     if be:
-        return bytes(Nifti1DicomExtension(2, ds, parent_hdr=Nifti1Header(endianness='>'))._mangle(ds))
-    return bytes(Nifti1DicomExtension(2, ds)._mangle(ds))
+        return bytes(Nifti1DicomExtension(2, ds, parent_hdr=Nifti1Header(endianness='>')).content)
+    return bytes(Nifti1DicomExtension(2, ds).content)
 
 
 def cifti_obj(spec):
@@ -253,9 +253,7 @@ def impl_run(case):
             out['offset'] = int(img2.dataobj.offset)
             out['read_data'] = np.asarray(img2.dataobj).tobytes(order='F')
     except HeaderDataError as e:
-        msg = str(e)
-        out['read'] = 'err ' + ('ext_content' if 'extension content' in msg else
-                                'ext_header' if 'extension header' in msg else 'other:' + msg[:60])
+        out['read'] = 'err HeaderDataError: ' + str(e)[:60]   # the text is informational, never compared
     return out
 
 
